@@ -34,8 +34,13 @@ GroupOK(e) ==
             /\ e.res[j].cntv = CountNN(cs)
             /\ (e.res[j].hassum => /\ NumCells(cs) # <<>>
                                    /\ e.res[j].sum2 = Sum2(NumCells(cs))
-                                   /\ e.res[j].min2 = Min2(cs) /\ e.res[j].max2 = Max2(cs))
+                                   \* MIN / MAX are judged on buckets of numbers only (a text among them is ordered by the type ladder)
+                                   /\ (~e.res[j].mixed => e.res[j].min2 = Min2(cs) /\ e.res[j].max2 = Max2(cs)))
             /\ (~e.res[j].hassum => NumCells(cs) = <<>>)
+            \* AVG is the sum of the numbers divided by how many NUMBERS there are (texts and NULLs do not count)
+            /\ e.res[j].hasavg = (NumCells(cs) # <<>>)
+            /\ (e.res[j].hasavg /\ Len(NumCells(cs)) <= 15) =>
+                  LET a == e.res[j].avq[Len(NumCells(cs))] IN a.ok /\ a.v = Sum2(NumCells(cs))
 
 \* analytic functions: for every row the logged value must equal the definition under SOME valid order of its
 \* partition; the harness logs the order csvq's ROW_NUMBER reveals (ord, per partition) and TLC checks it is valid
